@@ -407,6 +407,26 @@ func ruleR35(c *Ctx) {
 				continue
 			}
 			key := fmt.Sprintf("%s.%s returns the leaf found by %s(root)", tk.Name, meth, helper)
+			// delegation: `return leafEntry(minimum(t.root), t.restoreKey)` – the helper is analysed
+			// with its parameters bound to the method's arguments
+			u0 := u
+			env := map[*types.Var]ast.Expr{}
+			if r := simpleReturn(u); r != nil {
+				if call, ok := ast.Unparen(r).(*ast.CallExpr); ok && !m.isRestoreCall(call) {
+					if cu := m.calleeUnit(call); cu != nil && cu.Lit == nil && cu.Body != nil && cu.Type.Params != nil {
+						i := 0
+						for _, f := range cu.Type.Params.List {
+							for _, nm := range f.Names {
+								if v, _ := info.Defs[nm].(*types.Var); v != nil && i < len(call.Args) {
+									env[v] = call.Args[i]
+								}
+								i++
+							}
+						}
+						u = cu
+					}
+				}
+			}
 			// named results
 			var named []*types.Var
 			if u.Type.Results != nil {
@@ -421,15 +441,39 @@ func ruleR35(c *Ctx) {
 			okAll, any := true, false
 			why := ""
 			checkKeyCall := func(rk *ast.CallExpr) {
-				if rk == nil || !strings.HasSuffix(m.calleeName(rk), ".restoreKey") || len(rk.Args) != 1 {
+				isRestore := rk != nil && m.isRestoreCall(rk)
+				if rk != nil && !isRestore {
+					// a call through a function parameter bound to the restore method
+					if pv := identVar(info, rk.Fun); pv != nil {
+						if bound, ok := env[pv]; ok {
+							var obj types.Object
+							switch x := ast.Unparen(bound).(type) {
+							case *ast.Ident:
+								obj = info.Uses[x]
+							case *ast.SelectorExpr:
+								obj = info.Uses[x.Sel]
+							}
+							if f, ok := obj.(*types.Func); ok && m.isRestoreUnit(m.ByObj[f.Origin()]) {
+								isRestore = true
+							}
+						}
+					}
+				}
+				if rk == nil || !isRestore || len(rk.Args) != 1 {
 					okAll, why = false, "the found key is not the result of restoreKey"
 					return
 				}
 				arg := ast.Unparen(m.throughLocals(u, rk.Args[0]))
+				frame := u
+				if pv := identVar(info, arg); pv != nil {
+					if bound, ok := env[pv]; ok {
+						arg, frame = ast.Unparen(m.throughLocals(u0, bound)), u0
+					}
+				}
 				hc, _ := arg.(*ast.CallExpr)
 				if hc == nil {
 					if lv := identVar(info, arg); lv != nil {
-						hc = c.defCallOf(u, lv)
+						hc = c.defCallOf(frame, lv)
 					}
 				}
 				if hc == nil {
@@ -500,11 +544,11 @@ func ruleR35(c *Ctx) {
 			})
 			switch {
 			case !any:
-				c.r.bad("R35", key, m.pos(u.Decl.Pos()), meth+" never reports a key as found", "C05")
+				c.r.bad("R35", key, m.pos(u0.Decl.Pos()), meth+" never reports a key as found", "C05")
 			case okAll:
-				c.r.ok("R35", key, m.pos(u.Decl.Pos()), "restoreKey("+helper+"(t.root))", "C05")
+				c.r.ok("R35", key, m.pos(u0.Decl.Pos()), "restoreKey("+helper+"(t.root))", "C05")
 			default:
-				c.r.bad("R35", key, m.pos(u.Decl.Pos()), why+": the reported extreme can disagree with the first/last element of iteration (a cache, another descent)", "C05")
+				c.r.bad("R35", key, m.pos(u0.Decl.Pos()), why+": the reported extreme can disagree with the first/last element of iteration (a cache, another descent)", "C05")
 			}
 		}
 	}
